@@ -272,6 +272,9 @@ func startWatchdog() {
 			if S != nil && now == last {
 				idle++
 				if idle >= 15 {
+					if s := S; s != nil { // (racy read, diagnostics only: the schedule that led here)
+						fmt.Fprintf(os.Stderr, "STALLED-EXECUTION: prefix=%v choices=%v steps=%d aborting=%v\n", s.cfg.Prefix, s.res.Choices, s.steps, s.aborting)
+					}
 					fmt.Fprintln(os.Stderr, "DIVERGENCE: no scheduling activity for 30 s inside an execution: a thread is blocked in an operation the instrumenter does not model (range over a channel? an unbuffered channel made with a computed size?)")
 					fmt.Println("INFRA: execution blocked outside the controlled scheduler")
 					os.Exit(2)
